@@ -95,11 +95,24 @@ CLAIMS = {
              "variant's fields; created handles are top-level completion values; transfer precedes forwarding on deliver and spawn with a recursive "
              "walker. One recorded known finding (un-awaited termination never reaches cleanup). Event orderings across workers are not decided.",
         design="§3 C14", technique="static analysis: MIR path exploration with edge deletion, dominance, who-may-call censuses, HIR pattern matrices"),
+    "C15": dict(
+        text="Decides structural clauses: a deny-by-default census of every panic-capable construct on the worker / environment / executor step "
+             "paths (interval- or guard-discharged, else reviewed per-(function, kind) ceilings), the closed writer set of Process.result and frame "
+             "clears, a census of every fatal EnvironmentError constructed on those paths with the reason a program cannot trigger it, the await "
+             "registration / reporting / never-dropped-answer protocol and the propagation of the awaited process's own error, and effect/ownership "
+             "failures delivered to the requesting process as values. Containment under real interleavings is NOT decided.",
+        design="§3 C15", technique="static analysis: reach-set panic-site census with interval/guard discharge and reviewed tables; who-may-write census; path exploration"),
     "C16": dict(
         text="Decides the constant-space MECHANISM: the TailCall handler (and everything it reaches) pushes no frame, truncates locals before "
              "pushing new ones on every non-error path, overwrites the top frame in place with the same locals_base; frames are pushed at three "
              "reviewed sites; block stripping never splices a tail call out of final position. Peak sizes over N iterations are not measured.",
         design="§3 C16", technique="static analysis: MIR path exploration, value-source checks and who-may-call census"),
+    "C18": dict(
+        text="Decides the no-panic clause structurally: a deny-by-default census of every panic-capable construct (unwrap/expect/panic, slice and "
+             "str indexing, bounds asserts, usize subtraction) reachable from parse and Compiler::compile with reviewed per-(function, kind) "
+             "ceilings, a taint rule that numbers parsed from the source are never unwrapped, and the byte-offset discipline of string "
+             "post-processing (a predicate stepped over one BYTE at a time admits ASCII only). Termination and error positions are NOT decided.",
+        design="§3 C18", technique="static analysis: reach-set panic-site census with reviewed table; backward-slice taint rule; HIR sibling invariant"),
 }
 
 NOT_APPLICABLE = {
